@@ -305,7 +305,10 @@ func c46ClassifyV1(stream []byte) c46Verdict {
 		if f[0] == "TCP6" {
 			other = c46StrictV4
 		}
-		if _, ok, _ := other(s); ok {
+		if a, ok, _ := other(s); ok {
+			if a.Is4In6() {
+				return "bad-v1-addr-v4mapped-text-in-tcp4"
+			}
 			return "bad-v1-addr-other-family-in-" + strings.ToLower(f[0])
 		}
 		return "bad-v1-addr-unparsable-in-" + strings.ToLower(f[0])
